@@ -108,8 +108,15 @@ def apply(I, st, f, args, kw, frame, node):
         if f.closure is not None:
             return I.run_fn(st, f.cls, f.mod, f.fn, None, args, kw, frame.depth + 1, node, closure=f.closure)
         if len(args) == 1 and not kw and is_number_formatter(I, f):
-            # pure rendering of one number as text: kept symbolic (the helper's own body is analysed by C07)
-            return [(st, Cat([('fmt', args[0], '', 'fn:%s' % f.fn.name)]))]
+            # pure rendering of one number as text: kept symbolic (the helper's own body is analysed by C07); the ways it
+            # can raise are kept as exceptional outcomes of the call
+            out = [(st, Cat([('fmt', args[0], '', 'fn:%s' % f.fn.name)]))]
+            for r in I._formatters.get((f.mod, f.fn.name, 'raises'), ()):
+                s2 = st.clone()
+                I.stats['forks'] += 1
+                s2.ev('partial', 'formatter-raise', frame.qual(), f.fn.name, getattr(node, 'lineno', 0))
+                out.append((s2, Raised(r.exc, r.info, r.where)))
+            return out
         return I.run_fn(st, None, f.mod, f.fn, None, args, kw, frame.depth + 1, node)
     if isinstance(f, ExtFn):
         from .externals import call_ext
@@ -164,14 +171,21 @@ def is_number_formatter(I, f):
             res = None
         if res:
             ok = True
+            raises = {}
             for (s, v) in res:
-                if isinstance(v, Raised) or any(e[0] not in ('call', 'convert') for e in s.trace):
+                pure = all(e[0] in ('call', 'convert', 'partial') or
+                           (e[0] == 'ext' and not any(isinstance(a, Obj) for a in e[2])) for e in s.trace)
+                if not pure:
                     ok = False
                     break
+                if isinstance(v, Raised):
+                    raises.setdefault((v.exc, v.info), v)
+                    continue
                 from .pathfacts import live_alts
                 for x in live_alts(s, v):
                     if not isinstance(x, (Cat, Str)) or not (deps_of(x) <= {'arg:fmt:%s' % f.fn.name}):
                         ok = False
             cache[key + ('results',)] = res
+            cache[key + ('raises',)] = list(raises.values())
     cache[key] = ok
     return ok
